@@ -283,6 +283,16 @@ func (m *Module) Build(race bool) {
 			parts := strings.Split(strings.TrimPrefix(pk.pkg, "vcase/"), "/")
 			bad[parts[0]] += "# " + pk.pkg + "\n" + pk.text
 		}
+		// diagnostics that name a directory of the module instead of a package ("found packages a and b in <dir>")
+		for _, l := range strings.Split(string(out), "\n") {
+			if i := strings.Index(l, m.Dir+"/"); i >= 0 && !strings.HasPrefix(l, "#") {
+				rest := l[i+len(m.Dir)+1:]
+				name := strings.SplitN(rest, "/", 2)[0]
+				if !strings.Contains(bad[name], l) {
+					bad[name] += l + "\n"
+				}
+			}
+		}
 		if len(bad) == 0 {
 			bad["*"] = string(out)
 		}
